@@ -15,7 +15,6 @@ import (
 	"net/http"
 	"net/http/httptest"
 	"net/netip"
-	"sort"
 	"strings"
 	"testing"
 
